@@ -101,6 +101,30 @@ def run(chk):
                 evs.append("%d@%d" % (p, 0 if p == pa else 5))
         evs.append("%d@%d" % (pa, period * (burst + 2)))
         rl.append("ratelayer %s%s %d %d %s" % (mode, usage, period, burst, " ".join(evs)))
+    # many peers: one peer exhausts its quota (period one hour), then 1100-3000 other identities send one request each,
+    # then the first peer again: still over its quota, whatever the number of peers the layer has seen in between
+    many = []
+    for i in range(2 if quick else 8):
+        rng = chk.rng
+        burst = rng.choice([1, 2])
+        others = rng.choice([1100, 1500, 3000])
+        evs = ["5@0"] * (burst + 1) + ["%d@%d" % (100 + j, 1 + j // 100) for j in range(others)] + ["5@%d" % (others // 100 + 20)] * 2
+        many.append("ratelayer %s 3600000 %d %s" % ("err" if i % 2 == 0 else "err+same", burst, " ".join(evs)))
+    for c, a in zip(many, run_impl("layers", many, shards=len(many))):
+        chk.evaluations += 1
+        chk.count("ratelayer-many-peers")
+        chk.nontriv(c[:200])
+        if a.startswith(("PANIC", "CRASH", "TIMEOUT", "HANG")):
+            chk.monitor_fail("rate limit layer panicked / hung with many peers", dict(case=c[:300], impl=a[:300]))
+            continue
+        burst = int(c.split()[3])
+        res = [x.split(":") for x in a.split(" | ")[0].split()]
+        ok5 = len([r for r in res if r[0] == "5" and r[1] == "ok"])
+        if ok5 > burst + 1:
+            chk.monitor_fail("a peer with burst %d and a period of one hour got %d requests through within seconds while %d other peers were served" % (burst, ok5, len(res) - burst - 3), dict(case=c[:300], impl=a[:300]))
+        refused_others = len([r for r in res if r[0] != "5" and r[1] != "ok"])
+        if refused_others:
+            chk.monitor_fail("%d peers were refused their first request" % refused_others, dict(case=c[:300], impl=a[:300]))
     ri = run_impl("layers", rl, shards=len(rl))
     for c, a in zip(rl, ri):
         chk.evaluations += 1
